@@ -144,7 +144,7 @@ def gen_grid(rng):
     lat = [lat0 + i for i in range(nlat)]
     lon = [lon0 + i for i in range(nlon)]
     field = [[(None if rng.chance(0.15) else rng.dyadic(1, 30, 4)) for _ in range(nlon)] for _ in range(nlat)]
-    return {"lat": lat, "lon": lon, "field": field, "year": rng.pick((2001, 2005, 2018))}
+    return {"lat": lat, "lon": lon, "field": field, "year": rng.pick((2001, 2005, 2018)), "levels": rng.pick((0, 0, 2, 3))}
 
 
 def gen_bbox(rng, grid):
@@ -233,8 +233,16 @@ def grid_file(grid):
         return path
     t = pd.date_range(f"{grid['year']}-01-01", periods=12, freq="MS") + pd.Timedelta(days=14)
     f = np.array([[np.nan if v is None else v for v in row] for row in grid["field"]], dtype="float64")
-    data = np.broadcast_to(f, (12,) + f.shape).copy()
-    ds = xr.Dataset({"temp": (("time", "lat", "lon"), data)}, coords={"time": t, "lat": np.array(grid["lat"], dtype="float64"), "lon": np.array(grid["lon"], dtype="float64")})
+    coords = {"time": t, "lat": np.array(grid["lat"], dtype="float64"), "lon": np.array(grid["lon"], dtype="float64")}
+    if grid.get("levels"):
+        # a 3-d climatology: the surface level (index 0) is the one create_config uses
+        lv = np.stack([f + 100.0 * k for k in range(grid["levels"])])
+        data = np.broadcast_to(lv, (12,) + lv.shape).copy()
+        coords["depth"] = np.arange(grid["levels"], dtype="float64") * 10
+        ds = xr.Dataset({"temp": (("time", "depth", "lat", "lon"), data)}, coords=coords)
+    else:
+        data = np.broadcast_to(f, (12,) + f.shape).copy()
+        ds = xr.Dataset({"temp": (("time", "lat", "lon"), data)}, coords=coords)
     path = os.path.join(seams.scratch_dir(), f"clim-{key}.nc")
     ds.to_netcdf(path, engine="scipy", format="NETCDF3_64BIT")
     _GRID_FILES[key] = path
@@ -345,7 +353,11 @@ def execute(scn):
             try:
                 if op["grid"] not in creators:
                     path = grid_file(grid)
-                    creators[op["grid"]] = QcConfigCreator(CreatorConfig({"datasets": [{"name": "clim", "file_path": path, "variables": {"temperature": "temp"}}]}))
+                    dsd = {"name": "clim", "file_path": path, "variables": {"temperature": "temp"}}
+                    if grid.get("levels"):
+                        dsd["3d"] = "depth"
+                        bump("climatology_3d")
+                    creators[op["grid"]] = QcConfigCreator(CreatorConfig({"datasets": [dsd]}))
                 qc = creators[op["grid"]]
                 y, m, d = op["start"]
                 start = datetime.date(y, m, d)
